@@ -2318,10 +2318,6 @@ class Release(_multivalued):
         for key in self._multivalued_fields:
             if key not in self:
                 continue
-            if hasattr(self[key], 'keys'):
-                # Not multi-line -- don't need to compute the field length for
-                # this one
-                continue
             length = self._get_size_field_length(key)
             fixed_field_lengths[key] = {"size": length}
         return fixed_field_lengths
@@ -2331,7 +2327,11 @@ class Release(_multivalued):
         if self.size_field_behavior == "apt-ftparchive":
             return 16
         if self.size_field_behavior == "dak":
-            lengths = [len(str(item['size'])) for item in self[key]]
+            contents = self[key]
+            if hasattr(contents, 'keys'):
+                # Not multi-line: the field holds a single record
+                contents = [contents]
+            lengths = [len(str(item['size'])) for item in contents]
             return max(lengths, default=0)
         raise ValueError("Illegal value for size_field_behavior")
 
